@@ -43,10 +43,8 @@ fn main() {
             if !run.want(idx) {
                 continue;
             }
-            // quick: half of the 144-configuration product, the half chosen by the seed (thorough: all, repeated)
-            if !thorough && (idx + run.args.seed) % 2 == 1 {
-                continue;
-            }
+            // quick: the 144-configuration product once (thorough: repeated with other file sets)
+            let _ = thorough; // (quick ran half of the product until round 4; the whole product costs 3 s)
             let cfg = cfg_from_point(p);
             let mut rng = run.rng(idx, 0);
             let mut files = gen_fileset(&mut rng, cfg.sector_size(), 1 << 20);
